@@ -32,6 +32,9 @@ struct Context__MemorySlot g_decl[DECL_MAX + 1]; unsigned long g_decl_len; int g
 struct vslot_citerator { struct Context__MemorySlot *p; };
 #endif
 unsigned long _ZNKSt6vectorIN4bloc7Context10MemorySlotESaIS2_EE4sizeEv(const struct vec_MemorySlot *this) { (void)this; return g_decl_len; }
+/* const operator[]: by position (an index loop over the declared table is as good as an iterator loop) */
+const struct Context__MemorySlot *_ZNKSt6vectorIN4bloc7Context10MemorySlotESaIS2_EEixEm(const struct vec_MemorySlot *this, unsigned long n)
+{ (void)this; __CPROVER_assert(n < g_decl_len, "std::vector<MemorySlot>::operator[] const: index within size() (undefined behaviour otherwise)"); return &g_decl[n]; }
 void _ZNSt6vectorIN4bloc7Context10MemorySlotESaIS2_EE7reserveEm(struct vec_MemorySlot *this, unsigned long n) { (void)this; (void)n; }
 struct vslot_citerator _ZNKSt6vectorIN4bloc7Context10MemorySlotESaIS2_EE5beginEv(const struct vec_MemorySlot *this)
 { struct vslot_citerator it; (void)this; *(void **)&it = (void *)&g_decl[0]; return it; }
